@@ -313,8 +313,8 @@ structure Result where
   err : Option String
   deriving Repr, Inhabited
 
-/-- `cfg.build(node)` for a (synchronous) `FunctionDef` root: `self.builder is None` on entry. -/
-def build (fn : Stmt) : Result :=
+/-- The root function's builder just before `build()`, and the graphs of everything nested in it. -/
+def rootBuilder (fn : Stmt) : B × Acc :=
   match fn with
   | .functionDef i _ args body _ _ false =>
       let σ := [Scope.fn i]
@@ -322,16 +322,21 @@ def build (fn : Stmt) : Result :=
       let fb := fb.enterSection i
       let r := basicExpr σ args fb {}
       let r := visitStmts σ body r.1 r.2
-      let fb := r.1.exitSection i
-      let a := r.2.finish i fb
+      (r.1.exitSection i, r.2)
+  | _ => ({}, {})
+
+/-- `cfg.build(node)` for a (synchronous) `FunctionDef` root: `self.builder is None` on entry. -/
+def build (fn : Stmt) : Result :=
+  match fn with
+  | .functionDef i _ _ _ _ _ false =>
+      let a := (rootBuilder fn).2.finish i (rootBuilder fn).1
       { cfgs := a.cfgs, err := a.err }
   | _ => { cfgs := [], err := some "root is not a FunctionDef" }
 
-/-- The root function's own graph. -/
+/-- The root function's own graph (`cfg.build(fn)[fn]`; it is the entry finished last). -/
 def rootGraph (fn : Stmt) : Option Graph :=
-  let r := build fn
-  match r.err with
+  match (build fn).err with
   | some _ => none
-  | none => r.cfgs.lookup fn.id
+  | none => some (rootBuilder fn).1.build
 
 end Malt.Cfg
